@@ -1190,10 +1190,80 @@ class ConcreteI:
 # --------------------------------------------------------------------------------------
 # exploration
 # --------------------------------------------------------------------------------------
-def explore(body, case, max_paths=200000, timeout_ms=10000, budget_s=None, reset=None, want_witness=3, ctx_cls=None):
-    """Explore all paths of body(I, case).  Returns a JSON-able record."""
-    rec = dict(paths=0, aborted=0, queries=0, solver_s=0.0, unknown=0, obligations=0, discharged=0,
-               failures=[], reached={}, labels={}, truncated=False, errors=[], decisions=0, witnesses=[])
+def _new_rec():
+    return dict(paths=0, aborted=0, queries=0, solver_s=0.0, unknown=0, obligations=0, discharged=0,
+                failures=[], reached={}, labels={}, truncated=False, errors=[], decisions=0, witnesses=[])
+
+
+def _merge_rec(rec, d):
+    for k in ('paths', 'aborted', 'queries', 'solver_s', 'unknown', 'obligations', 'discharged', 'decisions'):
+        rec[k] += d[k]
+    for k in ('failures', 'errors', 'witnesses'):
+        rec[k].extend(d[k])
+    for k in ('reached', 'labels'):
+        for kk, v in d[k].items():
+            rec[k][kk] = rec[k].get(kk, 0) + v
+
+
+def _run_path(body, case, prefix, rec, timeout_ms, reset, want_witness, ctx_cls):
+    """execute one path (one re-execution of body under the decision prefix); returns the new work items"""
+    ctx = (ctx_cls or Ctx)(prefix, timeout_ms)
+    Ctx.cur = ctx
+    if reset:
+        reset()
+    I = SymbolicI(ctx, rec)
+    done = False
+    try:
+        body(I, case)
+        done = True
+    except Abort:
+        rec['aborted'] += 1
+    except Inconclusive as e:
+        rec['errors'].append(f"inconclusive: {e}")
+    except z3.Z3Exception as e:
+        rec['errors'].append(f"z3: {e}")
+    finally:
+        Ctx.cur = None
+    rec['queries'] += ctx.queries
+    rec['solver_s'] += ctx.qtime
+    rec['unknown'] += ctx.unknown
+    rec['decisions'] += len(ctx.trace)
+    if done:
+        rec['paths'] += 1
+        if want_witness:
+            try:
+                m = None
+                ctx.solver.push()
+                for sc in ctx.side:
+                    ctx.solver.add(sc)
+                ctx.solver.push()
+                for v in ctx.inputs.values():
+                    if z3.is_real(v):
+                        ctx.solver.add(z3.IsInt(v * 1024))
+                ctx.solver.set("timeout", 1500)
+                if str(ctx.solver.check()) == 'sat':
+                    m = ctx.get_model()
+                ctx.solver.pop()
+                if m is None and str(ctx.solver.check()) == 'sat':
+                    m = ctx.get_model()
+                if m is not None:
+                    obs = {}
+                    for k, val in I.observed.items():
+                        obs[k] = _eval_obs(m, val)
+                    rec['witnesses'].append(dict(values=model_values(ctx, m), observed=obs,
+                                                 trace=list(ctx.trace)))
+                ctx.solver.pop()
+            except z3.Z3Exception:
+                pass
+    return ctx.work
+
+
+def explore(body, case, max_paths=200000, timeout_ms=10000, budget_s=None, reset=None, want_witness=3, ctx_cls=None,
+            fork_paths=False):
+    """Explore all paths of body(I, case).  Returns a JSON-able record.
+    fork_paths: every path runs in a forked child process, so that state the code under test leaves behind (including state
+    the harness does not know about) cannot leak from one re-execution into the next."""
+    rec = _new_rec()
     work = [[]]
     t0 = time.time()
     while work:
@@ -1201,55 +1271,42 @@ def explore(body, case, max_paths=200000, timeout_ms=10000, budget_s=None, reset
             rec['truncated'] = True
             break
         prefix = work.pop()
-        ctx = (ctx_cls or Ctx)(prefix, timeout_ms)
-        Ctx.cur = ctx
-        if reset:
-            reset()
-        I = SymbolicI(ctx, rec)
-        done = False
-        try:
-            body(I, case)
-            done = True
-        except Abort:
-            rec['aborted'] += 1
-        except Inconclusive as e:
-            rec['errors'].append(f"inconclusive: {e}")
-        except z3.Z3Exception as e:
-            rec['errors'].append(f"z3: {e}")
-        finally:
-            Ctx.cur = None
-        work.extend(ctx.work)
-        rec['queries'] += ctx.queries
-        rec['solver_s'] += ctx.qtime
-        rec['unknown'] += ctx.unknown
-        rec['decisions'] += len(ctx.trace)
-        if done:
-            rec['paths'] += 1
-            if len(rec['witnesses']) < want_witness:
+        ww = want_witness if len(rec['witnesses']) < want_witness else 0
+        if not fork_paths:
+            work.extend(_run_path(body, case, prefix, rec, timeout_ms, reset, ww, ctx_cls))
+        else:
+            import os
+            import pickle
+            r, w = os.pipe()
+            pid = os.fork()
+            if pid == 0:
+                code = 0
                 try:
-                    m = None
-                    ctx.solver.push()
-                    for sc in ctx.side:
-                        ctx.solver.add(sc)
-                    ctx.solver.push()
-                    for v in ctx.inputs.values():
-                        if z3.is_real(v):
-                            ctx.solver.add(z3.IsInt(v * 1024))
-                    ctx.solver.set("timeout", 1500)
-                    if str(ctx.solver.check()) == 'sat':
-                        m = ctx.get_model()
-                    ctx.solver.pop()
-                    if m is None and str(ctx.solver.check()) == 'sat':
-                        m = ctx.get_model()
-                    if m is not None:
-                        obs = {}
-                        for k, val in I.observed.items():
-                            obs[k] = _eval_obs(m, val)
-                        rec['witnesses'].append(dict(values=model_values(ctx, m), observed=obs,
-                                                     trace=list(ctx.trace)))
-                    ctx.solver.pop()
-                except z3.Z3Exception:
-                    pass
+                    os.close(r)
+                    local = _new_rec()
+                    try:
+                        nw = _run_path(body, case, prefix, local, timeout_ms, reset, ww, ctx_cls)
+                    except BaseException as e:  # noqa
+                        import traceback
+                        local['errors'].append(f"crash: {type(e).__name__}: {e} {traceback.format_exc()[-800:]}")
+                        nw = []
+                    with os.fdopen(w, 'wb') as f:
+                        pickle.dump((local, nw), f)
+                except BaseException:  # noqa
+                    code = 3
+                finally:
+                    os._exit(code)
+            os.close(w)
+            with os.fdopen(r, 'rb') as f:
+                data = f.read()
+            os.waitpid(pid, 0)
+            try:
+                local, nw = pickle.loads(data)
+            except Exception as e:
+                rec['errors'].append(f"path child failed: {e}")
+                continue
+            _merge_rec(rec, local)
+            work.extend(nw)
         if len(rec['errors']) > 20:
             rec['truncated'] = True
             break
